@@ -2,8 +2,12 @@ SPEC = dict(
     props_file="Props/C23.v",
     level="proof",
     observers=[dict(cmd="obs_sentinel", imports=["Model.Sentinel"], case_type="Sentinel.case", check="Sentinel.check_case",
-                    n={"quick": 240, "thorough": 8000}, shard=60)],
-    rule="deployments of 2-3 data nodes and 1-4 sentinels (one known only through other sentinels' answers); sentinels down, reporting a "
+                    n={"quick": 250, "thorough": 8000}, shard=60)],
+    rule="ENUMERATED on every run (25 histories, independent of the seed): same-address re-validation — default / SendToReplicas client x "
+         "{no change, master demoted in place, master answers ROLE with an error, replica promoted in place} with the sentinel still reporting "
+         "the old addresses x {+switch-master naming the current address, +reboot master for it, subscription connection dropped, +sdown slave}, "
+         "then SET / GET (compared with live_m / live_r of the model), then a failover to a third node the client must follow. RANDOM in "
+         "addition: deployments of 2-3 data nodes and 1-4 sentinels (one known only through other sentinels' answers); sentinels down, reporting a "
          "stale / wrong / dead master, answering get-master-addr-by-name with nil, an empty or a one-element array, failing SENTINEL sentinels / "
          "replicas, replicas flagged s-down; data nodes down or answering ROLE with an error, an empty array, 'sentinel', or the opposite role; "
          "default / ReplicaOnly / SendToReplicas clients; NewClient = one synchronous _refresh whose result (adopted addresses, rotated "
@@ -12,7 +16,8 @@ SPEC = dict(
     trusted=["harness/fakesentinel is our reading of the Sentinel protocol (ROLE, SENTINEL sub-commands, +switch-master message layout)",
              "pickReplica's random draw is made irrelevant by leaving at most one eligible replica per answer",
              "event handling is asynchronous: the observer waits (up to 10 s) for the client to have asked the target for its ROLE / "
-             "to have switched before it sends traffic"],
+             "to have switched before it sends traffic; in the re-validation histories it waits for the second ROLE probe of the node "
+             "that fails the check (the client handled the first reply, close included, before it sent the second)"],
     assumptions=["the world (all answers) is an input of every step; the ghost fields ss_m_role / ss_m_src record the ROLE answer and the "
                  "announcer at adoption", "the two goroutines of the SendToReplicas refresh are modelled in master-then-replica order "
                  "(they touch disjoint fields)"],
@@ -23,9 +28,13 @@ MANIFEST = dict(
          "failures included, the address primary traffic goes to answered ROLE with 'master' at the moment it was adopted and had been "
          "announced by a sentinel answer or an event (replica traffic: 'slave'); a node answering with another role is never adopted; after a "
          "successful refresh the master is the address the answering sentinel reported; a +switch-master for the client's master set whose "
-         "target is up and answers 'master' moves primary traffic to it, one for another set is ignored. The unguarded indexing of short answers "
+         "target is up and answers 'master' moves primary traffic to it, one for another set is ignored; a switch to the address already in use "
+         "probes the installed connection (reused target) and closes it when the probe fails — wrong role or ROLE error, master and replica side —: "
+         "after +switch-master / +reboot naming the current address of a node demoted in place, and after the refresh that follows a dropped "
+         "subscription, user traffic reaches that node no more, and wherever it can arrive is reachable and answered the right role. The unguarded indexing of short answers "
          "(S2) is characterised exactly (C23_panic_sites) and reproduced by replays (corpus/C23). Tied to sentinel.go on every run: generated "
-         "worlds through the real client (NewClient's synchronous refresh; role flips with +switch-master and subsequent traffic) against "
+         "worlds through the real client (NewClient's synchronous refresh; role flips with +switch-master and subsequent traffic; 25 enumerated "
+         "same-address re-validation histories with traffic and a final failover) against "
          "fake sentinels and nodes, model evaluated on the same world, direct oracle on ROLE logs and on the role of the node receiving traffic.",
     note="partial (timing): when events are delivered and how long the switch takes is scheduler dependent and outside the model; the "
          "refreshRetry loop (unbounded, without back-off in the code) is cut by a parameter; crash freedom on malformed sentinel answers is not "
